@@ -11,6 +11,9 @@ CORE = ["x", "X", "_x", "1", '"s"', "{", "}", "(", ")", "[", "]", "<<", ">>", "#
 EXTRA = ["1.0", "<-", "|>", "@", "/", "||", "&&", "==", "<", "<>", "*", "!", "as", "assert", "const", "external", "if",
          "import", "opaque", "panic", "pub", "todo", "type", "use", "xY", "Xy_", "é", "\r", '"', "&", "$", "0x", "1.",
          "// c\n", "/// d\n", "//// m\n", "\n"]
+# characters editors and tools put into files without the user asking (byte order mark, other line/paragraph
+# separators, NUL, no-break and zero-width spaces, form feed, vertical tab) and characters outside the BMP
+EXOTIC = ["\ufeff", "\u2028", "\u2029", "\x00", "\u00a0", "\u200b", "\x0c", "\x0b", "\t", "\u0085", "💣", "e\u0301", "\ufffd", "\x7f"]
 OPENERS = ["{", "(", "[", "<<", "#(", "fn(", "case x {", "x(", "X(", "let #(", "[..", "<<1,"]
 CLOSERS = ["}", ")", "]", ">>"]
 
@@ -156,6 +159,15 @@ def inputs_c01_c02(tier, rng):
         for n in (1, 2, 5, 20, 60):
             out.append(("nest", "fn f() { " + (op + " ") * n))
             out.append(("nest-closed", "fn f() { " + (op + " ") * n + "} " * n))
+    # exotic characters at the start, at the end, alone, doubled and inside texts
+    samples = [t for t in corpus() if len(t) < 1500][:6] + ["pub fn f(x) {\n  x\n}\n", "import a\nconst c = \"s\"\n", ""]
+    for ch in EXOTIC:
+        for t in samples:
+            out.append(("exotic", ch + t)); out.append(("exotic", t + ch)); out.append(("exotic", ch + t + ch))
+            if t:
+                k = rng.randrange(len(t))
+                out.append(("exotic", t[:k] + ch + t[k:]))
+        out.append(("exotic", ch + ch)); out.append(("exotic", ch + " " + ch + "x" + ch))
     for _ in range(100 if tier == "quick" else 2000):
         n = rng.randrange(1, 40)
         out.append(("keywords", " ".join(rng.choice(EXTRA[12:25] + ["fn", "let", "case", "x", "{", "}"]) for _ in range(n))))
